@@ -92,7 +92,7 @@ CallOK(src, yy, ms, l) ==
     /\ n < MaxCallsP
     /\ (n = 0) => src = "x"
     /\ (nd > 0) => src = "cur"                 \* a derivation is made in order to be passed on
-    /\ IF src = "y" THEN yy \in YFrames /\ (y # NoY => yy = y) ELSE yy = y
+    /\ IF src = "y" THEN (y # NoY => yy = y) ELSE yy = y            \* (yy is drawn from YFrames)
     /\ <<ms, l>> \in Asks
 CallDo(src, yy, ms, l) ==
     /\ n' = n + 1 /\ nd' = 0
@@ -118,27 +118,35 @@ DerDo(d) ==
 Der(d) == DerOK(d) /\ DerDo(d) /\ UNCHANGED pend
 
 Srcs == {"x", "y", "cur"}
-Step == \/ \E src \in Srcs, ms \in ListsP, l \in LimsP \cup OtherLimsP :
-              \E yy \in (IF src = "y" THEN YFrames ELSE {y}) : Call(src, yy, ms, l)
+Step == \/ \E src \in Srcs :
+              \E yy \in (IF src = "y" THEN YFrames ELSE {y}) : \E ms \in ListsP, l \in LimsP \cup OtherLimsP : Call(src, yy, ms, l)
         \/ \E d \in Ders : Der(d)
 Next == Step /\ hist' = <<>>
 
 Entry(a, src, ms, l, d) == [a |-> a, src |-> src, ms |-> ms, lim |-> l, d |-> d, want |-> SetToSeq(cur')]
 NextGen ==
-    /\ \/ \E src \in Srcs, ms \in ListsP, l \in LimsP \cup OtherLimsP :
-             \E yy \in (IF src = "y" THEN YFrames ELSE {y}) :
+    /\ \/ \E src \in Srcs :
+             \E yy \in (IF src = "y" THEN YFrames ELSE {y}) : \E ms \in ListsP, l \in LimsP \cup OtherLimsP :
                  Call(src, yy, ms, l) /\ hist' = Append(hist, Entry("call", src, ms, l, NoD))
        \/ \E d \in Ders : Der(d) /\ hist' = Append(hist, Entry("der", "cur", <<>>, 0, d))
     /\ (Emit /\ n' = MaxCallsP) => PrintT(ToJson([x |-> x, y |-> y', hist |-> hist']))
 
-\* simulation (longer sessions): the caller first DECIDES on an enabled step (cheap: no outcome is computed for the steps
-\* not chosen), then takes it - so that a random walk does not pay for every successor of every state
+\* simulation (longer sessions): the caller first DECIDES on a step - its kind, then its arguments - and then takes it: a
+\* random walk does not pay for the outcome of every successor, and derivations / the three kinds of input object are
+\* chosen equally often although there are many more argument combinations for a call
 NextSim ==
-    IF pend = NoPend
-    THEN /\ \/ \E src \in Srcs, ms \in ListsP, l \in LimsP \cup OtherLimsP :
-                  \E yy \in (IF src = "y" THEN YFrames ELSE {y}) :
-                      CallOK(src, yy, ms, l) /\ pend' = [a |-> "call", src |-> src, y |-> yy, ms |-> ms, lim |-> l, d |-> NoD]
-            \/ \E d \in Ders : DerOK(d) /\ pend' = [a |-> "der", src |-> "cur", y |-> y, ms |-> <<>>, lim |-> 0, d |-> d]
+    IF pend.a = ""                    \* what kind of step: a derivation, or a call on which object
+    THEN /\ \/ /\ n >= 1 /\ n < MaxCallsP /\ nd < MaxDerP /\ SameRows(cur)
+               /\ pend' = [NoPend EXCEPT !.a = "der?"]
+            \/ \E src \in Srcs :
+                  /\ n < MaxCallsP /\ (n = 0 => src = "x") /\ (nd > 0 => src = "cur") /\ (src = "y" => YFrames # {})
+                  /\ pend' = [NoPend EXCEPT !.a = "call?", !.src = src]
+         /\ UNCHANGED <<x, y, cur, root, own, lastms, lastlim, n, nd, tag, mech, hist>>
+    ELSE IF pend.a \in {"der?", "call?"}     \* with which arguments
+    THEN /\ IF pend.a = "der?"
+            THEN \E d \in Ders : DerOK(d) /\ pend' = [a |-> "der", src |-> "cur", y |-> y, ms |-> <<>>, lim |-> 0, d |-> d]
+            ELSE \E yy \in (IF pend.src = "y" THEN YFrames ELSE {y}) : \E ms \in ListsP, l \in LimsP \cup OtherLimsP :
+                     CallOK(pend.src, yy, ms, l) /\ pend' = [a |-> "call", src |-> pend.src, y |-> yy, ms |-> ms, lim |-> l, d |-> NoD]
          /\ UNCHANGED <<x, y, cur, root, own, lastms, lastlim, n, nd, tag, mech, hist>>
     ELSE /\ pend' = NoPend
          /\ IF pend.a = "call"
